@@ -45,6 +45,8 @@ def spec(tier):
                           sym=dict(pools=I(1, 9), cpus=I(1, 128), ram=I(1, 512), multi=B, oc=B, algo_i=I(0, 4)),
                           fixed=dict(seed=seed, tps=tps), timeout=600, group=f"wi{tps}"))
     obs.append(CH(name="seed_passthrough", harness="c15.seed_passthrough", sym=dict(seed=I(0, 2 ** 31)), fixed={}, timeout=120, group="wi1"))
+    # the clause "in a fresh process under a different hash seed": native differential runs in fresh interpreter processes
+    obs.append(KN(name="hashseed_processes", func="vf.kernels.c07:hashseed_processes", args=dict(tier=tier), timeout=900))
     cfg = dict(algo="priority", pools=1, multi=True, duration=10, pipes=pipes)
     for w in ("suspend", "fail", "ok"):
         obs.append(twin(f"ids_{w}", "rsim.id_independence", dict(cpus=I(1, 6), ma=I(1, 9)), dict(cfg=cfg, mode="desc", cstart=7, ram=30, da=2, mb=3), w))
@@ -58,8 +60,8 @@ def spec(tier):
                    "WorkloadGenerator.__init__", "WorkloadGenerator.generate_pipelines", "WorkloadGenerator.run_one_tick"],
         bounds={"identifier_assignments": "ascending (reference) vs " + ", ".join(modes) + " integer-valued UUIDs; container counter starting at 1 vs 7",
                 "pipelines": 3, "ticks": 10, "cpus_per_pool": "1..6", "generator_ticks": 40},
-        outside=["the clause 'a fresh process under a different PYTHONHASHSEED': interpreter-level hash randomisation is not a solver variable; the identifier-order model covers the mechanism "
-                 "(iteration order of sets/dicts keyed by identifiers) for integer-valued UUIDs, whose hash does not depend on the hash seed",
+        outside=["the clause 'a fresh process under a different PYTHONHASHSEED' as a solver question: interpreter-level hash randomisation is not a solver variable; the identifier-order model covers the mechanism "
+                 "(iteration order of sets/dicts keyed by identifiers) symbolically, and obligation hashseed_processes adds native differential runs in fresh processes under 4 (8) hash seeds - concrete runs, not a solver verdict",
                  "'different seeds give different workloads': a property of numpy's PCG64, outside the code; the harness shows the seed reaches default_rng unchanged"],
         assumptions=A_ASSUME + ["M6 identifiers: uuid.uuid4 inside eudoxia.utils.dag is replaced by a stub that hands out UUIDs in a chosen order; the family of orders is concrete (listed in bounds)"],
         explanation=("2-safety by self-composition under CrossHair+z3: the real run_simulator is run twice inside one path on the same scripted branching workload with symbolic pool size and "
